@@ -77,132 +77,160 @@ void h_adjust(void) {
 /* =====================================================================================================================================
    The split-ordered list (insert-only, lock-free).  Rely/guarantee over ONE next pointer at a time, sequentially consistent atomics.
 
-   Representation.  Nodes are opaque tokens NODEPTR(i), i < g_n (g_n symbolic, <= 2^12); their immutable attributes are per-index arrays of
-   arbitrary content: g_ok[i] (order key), g_eq[i] (element whose key is equivalent to the key K* this thread works on), g_rank[i] (ghost: the
-   node's place in the list order once it is linked; an insert-only list never reorders, so the place is fixed at link time).  The only mutable
-   words are the next pointers.  Every access to a next pointer of a node that is in the list is preceded by interfere(): any number of steps of
-   any number of other threads, i.e. the word takes ANY value the list invariant allows (WORD_INV).  Hence a single scalar g_word stands for
-   "the next pointer being accessed"; the next pointer of this thread's own, still private node is g_me_next (no interference until it is linked).
+   Representation.  Nodes are opaque handles (never dereferenced).  A node has immutable attributes: ok (order key), eq (an element whose key is
+   equivalent to the key K* this thread works on), rank (ghost: the node's place in the list order once linked; an insert-only list never
+   reorders, so the place is fixed at link time).  The attributes are uninterpreted functions of the handle, realised as records for the handles
+   the thread currently holds: P/Q = the last (node, next) pair it read, ME = its own new node, W = ONE arbitrary other node of interest
+   (universal by arbitrariness); a handle read again gets the recorded attributes (same handle, same node), a handle the thread no longer holds
+   gets arbitrary ones (nothing is known about it).  The only mutable words are the next pointers.  Every access to the next pointer of a node
+   that is in the list is preceded by interference: any number of steps of any number of other threads, i.e. the word takes ANY value the list
+   invariant allows (WORD_INV); a scalar g_word stands for "the next pointer being accessed".  The next pointer of the thread's own, still
+   private node is g_me_next (no interference until the node is linked).
 
-   List invariant, instantiated at the word read (node p, value q) and at ONE arbitrary other node W (ghost index g_w; universal by arbitrariness):
+   List invariant, instantiated at the word read (node p, value q) and at W:
      q == NULL or q is a linked node with rank[q] > rank[p] and ok[q] >= ok[p]                      (sorted along every next pointer)
      W linked  =>  W does not lie strictly between p and q (q == NULL: not after p)                  (the chain holds every linked node)
      W linked  =>  ranks of distinct linked nodes differ, and rank order implies order-key order    (sortedness is transitive along the chain)
-   Guarantee proved at this thread's linking CAS (GUARANTEE_LINK): the invariant again, plus for unique-key containers: no equivalent node is
-   linked at that moment, and the successor's order key is strictly greater (an element is appended to the END of its order-key run).
-   Rely (what the same guarantee gives for the other threads): an equivalent node W of a unique-key container becomes linked only while this
-   thread's node is not linked, and then lies after every linked node whose order key is <= ok(K*).
+   Guarantee proved at this thread's linking CAS (GUARANTEE_LINK): the invariant again, plus the section's LINK_EXTRA (uniqueness).
+   Rely: what the same guarantee gives for the other threads (stated per section).
    ===================================================================================================================================== */
 typedef size_t size_type; typedef size_t sokey_type; typedef size_t key_type;
-typedef struct list_node *node_ptr; typedef node_ptr value_node_ptr;
-#define LOOP_rev_1
-#include "log2.inc"
-#include "sokey.inc"
-#define NMAX ((size_t)1 << 12)
-static size_t g_n; static sokey_type *g_ok; static bool *g_eq; static size_t *g_rank;
-#define NODEPTR(i) ((node_ptr)(((uintptr_t)(i) + 1) << 4))
-#define TIDX(p) ((size_t)(((uintptr_t)(p)) >> 4) - 1)
-#define VALID(p) ((p) != NULL && (((uintptr_t)(p)) & 15) == 0 && TIDX(p) < g_n)
-#define OK(p) (g_ok[TIDX(p)])
-#define RANK(p) (g_rank[TIDX(p)])
-#define EQ(p) (g_eq[TIDX(p)])
-size_t g_me, g_w;                       /* this thread's new node; ONE arbitrary other node of interest (equivalent element / same-key dummy / element present before) */
-#define MEPTR NODEPTR(g_me)
-#define WPTR NODEPTR(g_w)
+typedef uintptr_t node_ptr; typedef node_ptr value_node_ptr;
+#undef NULL
+#define NULL ((uintptr_t)0)
+struct ni { node_ptr h; sokey_type ok; size_t rank; bool eq; };
+#ifdef COVERS   /* manual reachability probes (each must FAIL): ./check does not use them */
+#define COVER(c) __CPROVER_assert(!(c), "COVER " #c)
+#else
+#define COVER(c) ((void)0)
+#endif
+int g_cas_failures;
+struct ni P, Q, W, ME;                       /* records; W.h / ME.h fixed in the harness */
 bool g_me_linked, g_w_linked, g_created, g_unique_rely;
-node_ptr g_word, g_me_next, g_acc, g_obs_p, g_obs_q;   /* g_acc: node whose next pointer is being accessed; g_obs_p/g_obs_q: the last (node, next) pair this thread read */
+node_ptr g_me_next;
 sokey_type g_okstar; key_type g_key; size_t g_hash;
-static size_t nidx(node_ptr p) { __CPROVER_assert(VALID(p), "C12.safe: only a node that was obtained from the list (or the thread's own node) is dereferenced"); return TIDX(p); }
-#define NODE_ORDER_KEY(p) (g_ok[nidx(p)])
-static node_ptr *next_word(node_ptr p) { size_t i = nidx(p); g_acc = p; return (i == g_me && !g_me_linked) ? &g_me_next : &g_word; }
-#define NODE_NEXT_WORD(p) (*next_word(p))
-/* facts about W relative to a linked node x */
-#define SORTEDW(x) (!g_w_linked || (((x) == WPTR || RANK(x) != g_rank[g_w]) && (!(g_rank[g_w] < RANK(x)) || g_ok[g_w] <= OK(x)) && (!(g_rank[g_w] > RANK(x)) || g_ok[g_w] >= OK(x))))
-#define WORD_INV(p, q) (SORTEDW(p) && ((q) == NULL ? (!g_w_linked || !(g_rank[g_w] > RANK(p))) \
-    : (VALID(q) && (q) != (p) && RANK(q) > RANK(p) && OK(q) >= OK(p) && ((q) != MEPTR || g_me_linked) && ((q) != WPTR || g_w_linked) && SORTEDW(q) \
-       && (!g_w_linked || !(g_rank[g_w] > RANK(p) && g_rank[g_w] < RANK(q))))))
-/* W is appended behind every linked node Y whose order key is <= the key's */
-#define W_AFTER(y) (!VALID(y) || OK(y) > g_okstar || g_rank[g_w] > RANK(y))
-static void interfere(node_ptr *w) {
+static struct ni nondet_ni(void);
+static struct ni info(node_ptr p) {
+    __CPROVER_assert(p != NULL, "C12.safe: a null node pointer is never dereferenced");
+    if (p == P.h) return P; if (p == Q.h) return Q; if (p == ME.h) return ME; if (p == W.h) return W;
+    struct ni r = nondet_ni(); r.h = p; return r;
+}
+#define NODE_ORDER_KEY(p) (info(p).ok)
+#define NODE_NEXT_WORD(p) (p)          /* the accessor macros below receive the node whose next pointer is accessed */
+#define PRIVATE(p) ((p) == ME.h && !g_me_linked)
+/* the same handle is the same node */
+#define SAME(a, b) ((a).h != (b).h || ((a).ok == (b).ok && (a).rank == (b).rank && (a).eq == (b).eq))
+static bool same(struct ni a, struct ni b) { return (a.h != b.h) | ((a.ok == b.ok) & (a.rank == b.rank) & (a.eq == b.eq)); }
+/* W against a linked node x: distinct nodes have distinct ranks; rank order implies order-key order */
+static bool sortedw(struct ni x) { return !g_w_linked | (((x.h == W.h) | (x.rank != W.rank)) & (!(W.rank < x.rank) | (W.ok <= x.ok)) & (!(W.rank > x.rank) | (W.ok >= x.ok))); }
+static bool word_inv(struct ni p, struct ni q) {
+    bool tail = !g_w_linked | !(W.rank > p.rank);
+    bool link = (q.h != p.h) & (q.rank > p.rank) & (q.ok >= p.ok) & ((q.h != ME.h) | g_me_linked) & ((q.h != W.h) | g_w_linked) & sortedw(q)
+              & same(q, P) & same(q, Q) & same(q, W) & same(q, ME) & (!q.eq | (q.ok == g_okstar))
+              & (!g_w_linked | !((W.rank > p.rank) & (W.rank < q.rank)));
+    return sortedw(p) & (q.h == NULL ? tail : link);
+}
+/* W is appended behind every linked node y whose order key is <= the key's */
+static bool w_after(struct ni y) { return (y.h == NULL) | (y.ok > g_okstar) | (W.rank > y.rank); }
+static void interfere_w(void) {
     if (!g_w_linked && nondet_bool()) {                                  /* another thread links W */
         g_w_linked = true;
-        if (g_unique_rely) __CPROVER_assume(!g_me_linked && W_AFTER(g_obs_p) && W_AFTER(g_obs_q));
+        if (g_unique_rely) __CPROVER_assume(!g_me_linked & w_after(P) & w_after(Q));
     }
-    if (w == &g_word) { g_word = (node_ptr)nondet_uintptr_t(); __CPROVER_assume(WORD_INV(g_acc, g_word)); }
+}
+struct pq { struct ni p, q; };
+static struct pq shared_word(node_ptr n) {           /* the next pointer of the linked node n after arbitrary interference: (n's record, the value's record) */
+    struct pq r; r.p = info(n); interfere_w(); r.q = nondet_ni(); __CPROVER_assume(word_inv(r.p, r.q)); return r;
+}
+static node_ptr do_load_next(node_ptr n) {
+    __CPROVER_assert(n != NULL, "C12.safe: a null node pointer is never dereferenced");
+    if (PRIVATE(n)) return g_me_next;
+    struct pq r = shared_word(n); P = r.p; Q = r.q; return Q.h;
 }
 #define ATOMIC_LOAD_AT(site, w) LOAD_##site(w)
 #define ATOMIC_STORE_AT(site, w, v) STORE_##site(w, v)
 #define ATOMIC_CAS_AT(site, w, e, d) CAS_##site(w, e, d)
 #define ATOMIC_FETCH_ADD_AT(site, w, v) FADD_##site(w, v)
-#define LOAD_node_next_LOAD_1(w) ({ node_ptr *w_ = &(w); interfere(w_); node_ptr r_ = *w_; g_obs_p = g_acc; g_obs_q = r_; r_; })
-#define STORE_node_set_next_STORE_1(w, v) do { node_ptr *w_ = &(w); \
-    __CPROVER_assert(w_ == &g_me_next, "C12.link: a next pointer is written by a plain store only in the thread's own node while that node is still private (a node that is in the list changes its next pointer by CAS only)"); \
-    *w_ = (v); } while (0)
-#define CAS_node_try_set_next_CAS_1(w, e, d) ({ node_ptr *w_ = &(w); node_ptr p_ = g_acc; interfere(w_); node_ptr o_ = *w_; bool r_ = (o_ == *(e)); \
-    if (r_) { GUARANTEE_LINK(w_, p_, o_, (d)); *w_ = (d); g_me_linked = true; } else *(e) = o_; r_; })
-#define GUARANTEE_LINK(w_, p, c, n) do { \
-    __CPROVER_assert((w_) == &g_word, "C12.link: a node is published by a CAS on the next pointer of a node that is in the list"); \
-    __CPROVER_assert((n) == MEPTR && g_created, "C12.link: the node linked is the node this insert created"); \
-    __CPROVER_assert(!g_me_linked, "C12.link: a node is linked at most once"); \
-    __CPROVER_assert(g_me_next == (c), "C12.link: the new node's next pointer is the successor it is put in front of - no node behind the insertion point becomes unreachable"); \
-    __CPROVER_assert(OK(p) <= g_ok[g_me] && ((c) == NULL || g_ok[g_me] <= OK(c)), "C12.sorted: the list stays sorted by split-order key across the link (predecessor <= new node <= successor)"); \
-    LINK_EXTRA(p, c); } while (0)
-static void list_setup(void) {
-    g_n = nondet_size_t(); __CPROVER_assume(g_n >= 3 && g_n <= NMAX);
-    g_ok = malloc(g_n * sizeof(sokey_type)); g_eq = malloc(g_n * sizeof(bool)); g_rank = malloc(g_n * sizeof(size_t)); __CPROVER_assume(g_ok && g_eq && g_rank);
-    g_me = nondet_size_t(); g_w = nondet_size_t(); __CPROVER_assume(g_me < g_n && g_w < g_n && g_w != g_me);
-    g_me_linked = false; g_w_linked = nondet_bool(); g_created = false; g_me_next = (node_ptr)nondet_uintptr_t(); g_word = NULL; g_acc = NULL; g_obs_q = NULL;
+#define LOAD_node_next_LOAD_1(w) do_load_next(w)
+#define STORE_node_set_next_STORE_1(w, v) do { __CPROVER_assert((w) != NULL, "C12.safe: a null node pointer is never dereferenced"); \
+    __CPROVER_assert(PRIVATE(w), "C12.link: a next pointer is written by a plain store only in the thread's own node while that node is still private (a node that is in the list changes its next pointer by CAS only)"); \
+    g_me_next = (v); } while (0)
+struct casres { bool ok; node_ptr old; };
+static struct casres do_cas_next(node_ptr n, node_ptr e, node_ptr d);
+#define CAS_node_try_set_next_CAS_1(w, e, d) ({ struct casres c_ = do_cas_next((w), *(e), (d)); if (!c_.ok) *(e) = c_.old; c_.ok; })
+static void link_extra(struct ni p, struct ni c);
+static struct casres do_cas_next(node_ptr n, node_ptr e, node_ptr d) {
+    __CPROVER_assert(n != NULL, "C12.safe: a null node pointer is never dereferenced");
+    __CPROVER_assert(!PRIVATE(n), "C12.link: a node is published by a CAS on the next pointer of a node that is in the list");
+    struct pq r = shared_word(n); struct casres c; c.old = r.q.h; c.ok = (r.q.h == e);
+    if (!c.ok) { g_cas_failures++; return c; }
+    __CPROVER_assert(d == ME.h && g_created, "C12.link: the node linked is the node this thread created");
+    __CPROVER_assert(!g_me_linked, "C12.link: a node is linked at most once");
+    __CPROVER_assert(g_me_next == e, "C12.link: the new node's next pointer is the successor it is put in front of - no node behind the insertion point becomes unreachable");
+    __CPROVER_assert(r.p.ok <= ME.ok && (e == NULL || ME.ok <= r.q.ok), "C12.sorted: the list stays sorted by split-order key across the link (predecessor <= new node <= successor)");
+    link_extra(r.p, r.q);
+    g_me_linked = true; return c;
 }
+static void list_setup(void) {
+    P = nondet_ni(); Q = nondet_ni(); W = nondet_ni(); ME = nondet_ni(); P.h = NULL; Q.h = NULL; __CPROVER_assume(W.h != NULL && ME.h != NULL && W.h != ME.h);
+    g_me_linked = false; g_w_linked = nondet_bool(); g_created = false; g_me_next = nondet_uintptr_t(); g_cas_failures = 0;
+}
+/* position of the thread in the list: prev/curr are the pair last read */
+#define TRACK(pv, cu) ((pv) == P.h && (cu) == Q.h && P.h != NULL && P.h != ME.h && SAME(P, W) && SAME(Q, W) && (P.h != W.h || g_w_linked) && (Q.h != W.h || g_w_linked) && !g_me_linked \
+    && (Q.h == NULL || (Q.h != ME.h && Q.h != P.h && Q.ok >= P.ok)))
 
 #ifdef L_INSERT
-/* ---- search_after + try_insert + internal_insert: any list, any interleaving, unique-key and multi containers (allow_multimapping arbitrary) ---- */
+/* ---- search_after + try_insert + internal_insert: any list, any interleaving, unique-key and multi containers (allow_multimapping arbitrary) ----
+   W = an arbitrary OTHER node whose key is equivalent to K*.  Rely for unique-key containers (the guarantee LINK_EXTRA of the other inserters):
+   W becomes linked only while this thread's node is not linked, and then lies behind every linked node whose order key is <= ok(K*). */
 struct sres { value_node_ptr first; bool second; };
 struct iir { value_node_ptr remaining_node; value_node_ptr node_with_equal_key; bool inserted; };
 struct cub { size_type my_size, my_bucket_count; };
 bool allow_multimapping; int g_size_incs;
-#define NODE_KEY(x) (__CPROVER_assert((g_ok[nidx(x)] & 1) == 1, "C12.safe: a key is read only from an element, never from a dummy node (dummies have no value)"), (x))
-#define KEY_EQUAL(a, b) (__CPROVER_assert((b) == g_key, "C12.find: nodes are compared with the key being inserted"), g_eq[TIDX(a)])
+#define NODE_KEY(x) (__CPROVER_assert((info(x).ok & 1) == 1, "C12.safe: a key is read only from an element, never from a dummy node (dummies have no value)"), (x))
+#define KEY_EQUAL(a, b) (__CPROVER_assert((b) == g_key, "C12.find: nodes are compared with the key being inserted"), info(a).eq)
 #define KEY_HASH(k) (g_hash)
-#define LINK_EXTRA(p, c) do { if (!allow_multimapping) { \
-    __CPROVER_assert(!g_w_linked, "C12.unique: when an insert links its node no other node with an equivalent key is in the list - of several concurrent inserts of one absent key exactly one links its node"); \
-    __CPROVER_assert((c) == NULL || OK(c) > g_ok[g_me], "C12.unique: an element of a unique-key container is linked at the end of its order-key run (what the other inserters' searches rely on)"); } } while (0)
+static void link_extra(struct ni p, struct ni c) { if (!allow_multimapping) {
+    __CPROVER_assert(!g_w_linked, "C12.unique: when an insert links its node no other node with an equivalent key is in the list - of several concurrent inserts of one absent key exactly one links its node");
+    __CPROVER_assert(c.h == NULL || c.ok > ME.ok, "C12.unique: an element of a unique-key container is linked at the end of its order-key run (what the other inserters' searches rely on)"); } }
 #include "nodes.inc"
 #define FADD_insert_FETCH_ADD_1(w, v) ({ __CPROVER_assert(g_me_linked, "C12.size: the element count is raised only for a linked node"); g_size_incs++; size_type o_ = (w); (w) = o_ + (v); o_; })
 #define LOAD_insert_LOAD_1(w) (w)
 static void STUB_adjust_table_size(struct cub *s, size_type total, size_type cur) { }
+static sokey_type STUB_split_order_key_regular(sokey_type h) { __CPROVER_assert(h == g_hash, "C12.key: the order key is computed from the key's hash"); return g_okstar; }
 /* prepare_bucket (job solist.bucket): the linked dummy node of the key's bucket; its order key is even and smaller than the element's (job sokey.order) */
 static node_ptr STUB_prepare_bucket(struct cub *s, sokey_type h) { __CPROVER_assert(h == g_hash, "C12.key: the bucket is chosen from the key's hash");
-    node_ptr d = (node_ptr)nondet_uintptr_t(); __CPROVER_assume(VALID(d) && d != MEPTR && (OK(d) & 1) == 0 && OK(d) < g_okstar && SORTEDW(d)); g_obs_p = d; g_obs_q = NULL; return d; }
+    P = nondet_ni(); Q = nondet_ni(); Q.h = NULL; __CPROVER_assume(P.h != NULL && P.h != ME.h && P.h != W.h && (P.ok & 1) == 0 && P.ok < g_okstar && !P.eq && sortedw(P)); return P.h; }
 static value_node_ptr STUB_create_insert_node(struct cub *s, sokey_type ok) { __CPROVER_assert(!g_created, "C12.link: one node is created per insert");
-    __CPROVER_assert(ok == g_okstar, "C12.key: the new node carries the split-order key of its key's hash"); g_created = true; g_me_next = NULL; return MEPTR; }
-/* position facts about the arbitrary equivalent node W (unique-key containers): L1 W, if linked, lies behind prev; L2 if W lies at or before curr (and is not curr) then curr is past the key's run */
-#define L1(pv) (!g_w_linked || g_rank[g_w] > RANK(pv))
-#define L2(cu) ((cu) == NULL || !g_w_linked || (cu) == WPTR || g_rank[g_w] > RANK(cu) || OK(cu) > g_okstar)
-#define POS(pv, cu) (VALID(pv) && (pv) != MEPTR && g_obs_p == (pv) && g_obs_q == (cu) && OK(pv) <= g_okstar && !g_me_linked \
-    && ((cu) == NULL || (VALID(cu) && (cu) != MEPTR && OK(cu) >= OK(pv))) && (allow_multimapping || (L1(pv) && L2(cu))))
-#define LOOP_search_1 __CPROVER_assigns(*prev, curr, g_word, g_w_linked, g_obs_p, g_obs_q, g_acc) \
+    __CPROVER_assert(ok == g_okstar, "C12.key: the new node carries the split-order key of its key's hash"); g_created = true; g_me_next = NULL; return ME.h; }
+/* position facts about W (unique-key containers): L1 W, if linked, lies behind prev; L2 if W lies at or before curr (and is not curr) then curr is past the key's run */
+#define L1 (!g_w_linked || W.rank > P.rank)
+#define L2 (Q.h == NULL || !g_w_linked || Q.h == W.h || W.rank > Q.rank || Q.ok > g_okstar)
+#define POS(pv, cu) (TRACK(pv, cu) && P.ok <= g_okstar && (allow_multimapping || (L1 && L2)))
+#define LOOP_search_1 __CPROVER_assigns(*prev, curr, g_w_linked, P, Q) \
     __CPROVER_loop_invariant(POS(*prev, curr) && order_key == g_okstar && key == g_key)
-#define LOOP_insert_1 __CPROVER_assigns(prev, curr, search_result, g_word, g_me_next, g_me_linked, g_w_linked, g_obs_p, g_obs_q, g_acc) \
-    __CPROVER_loop_invariant(POS(prev, curr) && g_created && new_node == MEPTR && order_key == g_okstar && key == g_key && g_size_incs == 0 \
-       && (curr == NULL || OK(curr) > g_okstar || (allow_multimapping && OK(curr) == g_okstar)))
+#define LOOP_insert_1 __CPROVER_assigns(prev, curr, search_result, g_cas_failures, g_me_next, g_me_linked, g_w_linked, P, Q) \
+    __CPROVER_loop_invariant(POS(prev, curr) && g_created && new_node == ME.h && order_key == g_okstar && key == g_key && g_size_incs == 0 \
+       && (curr == NULL || Q.ok > g_okstar || (allow_multimapping && Q.ok == g_okstar)))
 #include "insert.inc"
 size_t IN_hash; bool IN_multi;
 void h_insert(void) {
     list_setup(); allow_multimapping = IN_multi = nondet_bool(); g_unique_rely = !allow_multimapping;
-    g_hash = IN_hash = nondet_size_t(); g_key = nondet_size_t(); g_okstar = split_order_key_regular(g_hash); g_size_incs = 0;
+    g_hash = IN_hash = nondet_size_t(); g_key = nondet_size_t(); g_okstar = nondet_size_t() | 1; g_size_incs = 0;   /* the key's order key: odd (job sokey.order) */
     /* this thread's node and W carry a key equivalent to K*: equivalent keys hash alike */
-    __CPROVER_assume(g_eq[g_me] && g_ok[g_me] == g_okstar && g_eq[g_w] && g_ok[g_w] == g_okstar);
+    __CPROVER_assume(ME.eq && ME.ok == g_okstar && W.eq && W.ok == g_okstar);
     struct cub c; c.my_size = nondet_size_t(); c.my_bucket_count = nondet_size_t();
     struct iir r = cub_internal_insert(&c, g_key);
     OBLIGATION(r.inserted == g_me_linked, "C12.insert: insert reports success exactly when its node was linked into the list");
-    if (r.inserted) OBLIGATION(r.node_with_equal_key == MEPTR && r.remaining_node == NULL && g_size_incs == 1, "C12.insert: a successful insert returns its own node, leaves nothing to free and counts the element once");
+    if (r.inserted) OBLIGATION(r.node_with_equal_key == ME.h && r.remaining_node == NULL && g_size_incs == 1, "C12.insert: a successful insert returns its own node, leaves nothing to free and counts the element once");
     else {
         OBLIGATION(!allow_multimapping, "C12.insert: a multi container accepts every insert");
-        OBLIGATION(VALID(r.node_with_equal_key) && r.node_with_equal_key != MEPTR && EQ(r.node_with_equal_key) && OK(r.node_with_equal_key) == g_okstar,
+        OBLIGATION(r.node_with_equal_key != NULL && r.node_with_equal_key != ME.h && r.node_with_equal_key == Q.h && Q.eq && Q.ok == g_okstar,
                    "C12.unique: an insert that fails returns a node of the list whose key is equivalent (the loser finds the winner's node)");
-        OBLIGATION(r.remaining_node == (g_created ? MEPTR : NULL) && g_size_incs == 0, "C12.insert: the losing insert hands its unlinked node back to be freed (and only that), and does not count an element");
+        OBLIGATION(r.remaining_node == (g_created ? ME.h : NULL) && g_size_incs == 0, "C12.insert: the losing insert hands its unlinked node back to be freed (and only that), and does not count an element");
     }
     OBLIGATION(allow_multimapping || !(g_me_linked && g_w_linked), "C12.unique: a unique-key container never holds two nodes with equivalent keys");
+    COVER(!allow_multimapping && r.inserted); COVER(!allow_multimapping && !r.inserted && g_created && g_w_linked && r.node_with_equal_key == W.h); COVER(allow_multimapping && r.inserted && g_w_linked); COVER(g_cas_failures > 0 && r.inserted);
     VACUITY_END();
 }
 #endif /* L_INSERT */
